@@ -292,6 +292,70 @@ def mk_replay(cls, op, argnames):
     return rp
 
 
+NATIVE_RESULTS = []
+NATIVE_CLASS = {"mfs_ops": "Multi_field_operators_with_small_characteristics",
+                "mfs_sh": "Shared_multi_field_element_with_small_characteristics",
+                "mfs_el": "Multi_field_element_with_small_characteristics"}
+
+
+def mk_replay_native(key):
+    """small multi-field classes only accept products of consecutive primes as modulus: a refuted obligation is
+    replayed by searching the exhaustive-native sweep of the same class (same run) for a failing input"""
+    def rp(unit, failure):
+        for n in NATIVE_RESULTS:
+            if n.get("class") == NATIVE_CLASS[key] and n.get("failures"):
+                c = n["failures"][0]
+                return {"reproduced": True, "detail": f"{n['unit']}: real class is wrong on {c.get('case')}", "native_case": c}
+        return {"reproduced": None, "detail": "the exhaustive-native sweep of this class over the listed prime ranges finds no wrong result"}
+    return rp
+
+
+def native(tier, seed, bdir, only=None):
+    """exhaustive-native stand-ins (route N): the seven multi-field classes (three of them GMP-based, one the
+    cohomology engine's) on every reduced operand pair of small prime ranges.  Labelled bounded."""
+    import concurrent.futures as cf
+    import fnmatch
+    import json
+    thorough = tier == "thorough"
+    names = ["small_operators", "small_shared", "small_element", "gmp_operators", "gmp_shared", "gmp_element", "cohomology_multi_field"]
+    jobs = [(k, f"native.multifield.{n}") for k, n in enumerate(names)]
+    if only:
+        jobs = [j for j in jobs if fnmatch.fnmatch(j[1], only)]
+    if not jobs:
+        return []
+    os.makedirs(bdir, exist_ok=True)
+    exe = os.path.join(bdir, "multifield_sweep")
+    inc = ["-I/repo/src/Persistence_matrix/include", "-I/repo/src/Persistent_cohomology/include", "-I/repo/src/common/include"]
+    rc, o, e, s = sh(["g++", "-std=c++17", "-O1", "-w"] + inc + [os.path.join(VERIF, "native", "multifield_sweep.cpp"), "-o", exe, "-lgmpxx", "-lgmp"], 600)
+    if rc != 0:
+        return [{"unit": "native.build", "status": "error", "notes": (o + e)[-1500:], "cases": 0, "failures": []}]
+    ranges = "[2,3] [2,5] [3,7] [5,7] [7,7]" + (" [2,7] [5,13] [11,17]" if thorough else "")
+    out = []
+    with cf.ThreadPoolExecutor(max_workers=7) as ex:
+        futs = [(uid, ex.submit(sh, [exe, str(k), "1" if thorough else "0"], 3600)) for k, uid in jobs]
+        for uid, fut in futs:
+            rc, o, e, secs = fut.result()
+            rec = {"unit": uid, "route": "B", "kind": "exhaustive-native", "status": "ok", "cases": 0, "failures": [],
+                   "seconds": round(secs, 2), "bound": f"prime ranges {ranges}; every reduced operand / operand pair / sub-product",
+                   "desc": "add, subtract, multiply, inverse, partial inverse w.r.t. every sub-product, conversion of signed integers: real class vs exact arithmetic"}
+            try:
+                js = json.loads(o.strip().split("\n")[-1])
+            except (ValueError, IndexError):
+                rec["status"] = "error"
+                rec["notes"] = f"native run failed rc={rc}: {(o + e)[-600:]}"
+                out.append(rec)
+                continue
+            rec["class"] = js["class"]
+            rec["cases"] = rec["obligations"] = js["checked"]
+            rec["mismatches"] = js["mismatches"]
+            for m in js["first"]:
+                m["id"] = f"case{len(rec['failures'])}"
+                m["input_class"] = None
+                rec["failures"].append(m)
+            out.append(rec)
+    return out
+
+
 def _num(v):
     return int(str(v).rstrip("uUlL"))
 
@@ -324,17 +388,18 @@ def units(tier):
         pin = ["in_p"] if leaf3 else [pr.P]
         pvar = ", in_p" if leaf3 else ""
         cls = k
+        mkr = (lambda c, op, names: mk_replay_native(c)) if k in NATIVE_CLASS else mk_replay
         U.append(Unit(f"{k}._add", "C10", [fn_add(pr)], enforce="_add", typedefs=TD_U, globals_=pr.globals_,
-                      inputs=["in_e1", "in_e2"] + pin, replay=mk_replay(cls, "_add", ["in_e1", "in_e2"] + pin),
+                      inputs=["in_e1", "in_e2"] + pin, replay=mkr(cls, "_add", ["in_e1", "in_e2"] + pin),
                       harness=H(f"  unsigned int in_e1, in_e2{pvar};{pdecl}", f"_add(in_e1, in_e2{parg});"),
                       desc=f"{pr.path.split('/')[-1]} _add: exact sum reduced, every 32-bit characteristic"))
         U.append(Unit(f"{k}._subtract", "C10", [fn_sub(pr)], enforce="_subtract", typedefs=TD_U, globals_=pr.globals_,
-                      inputs=["in_e1", "in_e2"] + pin, replay=mk_replay(cls, "_subtract", ["in_e1", "in_e2"] + pin),
+                      inputs=["in_e1", "in_e2"] + pin, replay=mkr(cls, "_subtract", ["in_e1", "in_e2"] + pin),
                       harness=H(f"  unsigned int in_e1, in_e2{pvar};{pdecl}", f"_subtract(in_e1, in_e2{parg});"),
                       desc=f"{pr.path.split('/')[-1]} _subtract: exact difference reduced"))
         U.append(Unit(f"{k}._multiply.range", "C10", [fn_mul(pr)], enforce="_multiply", typedefs=TD_U,
                       globals_=pr.globals_, loop_contracts=True, inputs=["in_e1", "in_e2"] + pin,
-                      replay=mk_replay(cls, "_multiply", ["in_e1", "in_e2"] + pin),
+                      replay=mkr(cls, "_multiply", ["in_e1", "in_e2"] + pin),
                       harness=H(f"  unsigned int in_e1, in_e2{pvar};{pdecl}", f"_multiply(in_e1, in_e2{parg});"),
                       desc="_multiply: loop contract (result and operands stay reduced; terminates) for every 32-bit characteristic"))
         U.append(Unit(f"{k}._multiply.step", "C10", [fn_mul_step(pr)], enforce="_multiply_step", typedefs=TD_U,
@@ -347,13 +412,13 @@ def units(tier):
                       [fn_mul(pr, contract=c_mul_exact_b(pr.Pleaf, pr.mul_names[0], pr.mul_names[1]), loops=False)],
                       enforce="_multiply", typedefs=TD_U, globals_=pr.globals_, unwind=7, route="B",
                       bound="characteristic <= 31 (operands < p, so the loop runs <= 5 times; unwinding assertion on)",
-                      inputs=["in_e1", "in_e2"] + pin, replay=mk_replay(cls, "_multiply", ["in_e1", "in_e2"] + pin),
+                      inputs=["in_e1", "in_e2"] + pin, replay=mkr(cls, "_multiply", ["in_e1", "in_e2"] + pin),
                       harness=H(f"  unsigned int in_e1, in_e2{pvar};{pdecl}", f"_multiply(in_e1, in_e2{parg});"),
                       desc="_multiply == e1*e2 mod p (64-bit product), every p <= 31"))
         if pr.gvu_sig:
             U.append(Unit(f"{k}.get_value_u", "C10", [fn_gvu(pr)], enforce="get_value_u", typedefs=TD_U,
                           globals_=pr.globals_, inputs=["in_e", pr.P], runs=RUNS_GVU,
-                          replay=mk_replay(cls, "get_value_u", ["in_e", pr.P]),
+                          replay=mkr(cls, "get_value_u", ["in_e", pr.P]),
                           harness=H(f"  unsigned int in_e; {pr.P} = nondet_uint();", "get_value_u(in_e);"),
                           desc="residue of an unsigned integer"))
         if pr.gvs_sig:
@@ -362,7 +427,7 @@ def units(tier):
                 td["Signed_integer_type" if k == "zp_ops" else "Integer_type"] = T
                 U.append(Unit(f"{k}.get_value_{T}", "C10", [fn_gvs(pr, T)], enforce="get_value_s", typedefs=td,
                               globals_=pr.globals_, inputs=["in_e", pr.P], runs=RUNS_GVS,
-                              replay=mk_replay(cls, f"get_value_{T}", ["in_e", pr.P]),
+                              replay=mkr(cls, f"get_value_{T}", ["in_e", pr.P]),
                               harness=H(f"  {T} in_e; {pr.P} = nondet_uint();", "get_value_s(in_e);"),
                               desc=f"residue of a signed integer ({T}), negative ones included, one clause per region"))
             if k != "zp_ops":
@@ -370,7 +435,7 @@ def units(tier):
                 td["Integer_type"] = "unsigned int"
                 U.append(Unit(f"{k}.get_value_u", "C10", [fn_gvs(pr, "unsigned int", signed=False)],
                               enforce="get_value_u", typedefs=td, globals_=pr.globals_, inputs=["in_e", pr.P],
-                              runs=RUNS_GVU, replay=mk_replay(cls, "get_value_u", ["in_e", pr.P]),
+                              runs=RUNS_GVU, replay=mkr(cls, "get_value_u", ["in_e", pr.P]),
                               harness=H(f"  unsigned int in_e; {pr.P} = nondet_uint();", "get_value_u(in_e);"),
                               desc="residue of an unsigned integer (unsigned branch of _get_value)"))
     # ---- public operations of the two run-time operator classes --------------------------------------------
@@ -400,7 +465,7 @@ def ops_units(pr, U, thorough):
         fn = Fn(path, sig, name, contract, calls=CALLS, canary=canary)
         U.append(Unit(f"{k}.{name}", "C10", callee_fns + [fn], enforce=name, replace=replace, typedefs=TD_U,
                       globals_=G, inputs=inputs + [P], runs=runs,
-                      replay=mk_replay(k + ("3" if len(inputs) == 3 else ""), replay_op or name, inputs + [P]),
+                      replay=(mk_replay_native(k) if k in NATIVE_CLASS else mk_replay(k + ("3" if len(inputs) == 3 else ""), replay_op or name, inputs + [P])),
                       harness=H(f"  {decls} {P} = nondet_uint(); g_mul_n = 0;", call), desc=desc))
 
     # every obligation of the wrappers on z3: the assumed callee contracts contain `%`; MiniSat handles each
